@@ -188,13 +188,14 @@ def load_findings():
 
 
 def write_replay(pid, sig, n, viol, seed, tier):
-    os.makedirs(os.path.join(VERIF, 'replays'), exist_ok=True)
+    rdir = os.environ.get('VERIF_REPLAY_DIR') or os.path.join(VERIF, 'replays')
+    os.makedirs(rdir, exist_ok=True)
     safe = ''.join(c if c.isalnum() or c in '-_' else '_' for c in sig)[:80]
-    path = os.path.join(VERIF, 'replays', f'{pid}-{safe}-{n}.json')
+    path = os.path.join(rdir, f'{pid}-{safe}-{n}.json')
     with open(path, 'w') as fh:
         json.dump({'property': pid, 'signature': sig, 'seed': seed, 'tier': tier,
                    'case': viol['case'], 'detail': viol['detail']}, fh, indent=1, default=str)
-    test = os.path.join(VERIF, 'replays', f'test_{pid}_{safe}_{n}.py')
+    test = os.path.join(rdir, f'test_{pid}_{safe}_{n}.py')
     with open(test, 'w') as fh:
         fh.write('# generated: replays one case on the real code, no explorer\n'
                  'import json, os, sys\n'
@@ -322,8 +323,9 @@ def run(pid, tier, seed, jobs=None, replay=None, quiet=False):
         'coverage': cov, 'assumptions': list(chk.assumptions),
         'wall_s': round(wall, 3), 'violations': new_viol,
     }
-    os.makedirs(os.path.join(VERIF, 'evidence'), exist_ok=True)
-    evpath = os.path.join(VERIF, 'evidence', f'{pid}.json')
+    evdir = os.environ.get('VERIF_EVIDENCE_DIR') or os.path.join(VERIF, 'evidence')
+    os.makedirs(evdir, exist_ok=True)
+    evpath = os.path.join(evdir, f'{pid}.json')
     with open(evpath, 'w') as fh:
         json.dump(ev, fh, indent=1, default=str)
     ok = validate_evidence(evpath)
